@@ -1496,6 +1496,16 @@ pub fn gen_c17(rng: &mut Rng, tier: &str, out: &mut Out) {
             out.d(format!("FRM {}", hxs(l)));
             out.d(format!("THW {}", hxs(l)));
         }
+        if rng.pct(10) {
+            // invalid UTF-8 reaches try_parse as bytes
+            let mut b = t.clone().into_bytes();
+            let pos = if b.is_empty() { 0 } else { rng.below(b.len()) };
+            b.insert(pos, rng.pick(&[0xffu8, 0xc3, 0x80, 0xe2, 0xf0, 0xed]));
+            out.d(format!("TRC {}", hx(&b)));
+            out.d(format!("FRM {}", hx(&b)));
+            out.d(format!("THW {}", hx(&b)));
+            out.count("invalid_utf8");
+        }
         let c = tg.class(rng);
         let m = tg.method_for(rng, &c);
         let line = rng.pick(&[0usize, 1, 77, 1 << 32, usize::MAX, usize::MAX - 1]);
